@@ -82,16 +82,19 @@ class Universe:
         for i in range(n):
             kind = rng.choice(PRIM_KINDS + refs * 3)
             # req / opt / list, a list under a wrapper element, a list written as one tokens value
-            shape = rng.choice(["req", "opt", "opt", "list", "list", "wlist", "wlist", "tokens"])
+            # … and fields outside __init__ holding a fixed value (xs fixed="…"): a single value or a tokens list
+            shape = rng.choice(["req", "opt", "opt", "list", "list", "wlist", "wlist", "tokens", "fixed", "fixedtok"])
             is_cls = kind in refs
-            if shape == "tokens" and kind not in TOKEN_KINDS:
-                shape = "wlist"
+            if shape in ("tokens", "fixedtok") and kind not in TOKEN_KINDS:
+                shape = "wlist" if shape == "tokens" else "fixed"
+            if shape == "fixed" and is_cls:
+                shape = "opt"
             xml = "Element" if (shape in ("list", "wlist") or is_cls or rng.random() < 0.6) else "Attribute"
             md = {"type": xml}
             if shape == "wlist":
                 md["wrapper"] = f"W{i}"
                 md["name"] = f"item{i}"
-            if shape == "tokens":
+            if shape in ("tokens", "fixedtok"):
                 md["tokens"] = True
             if kind.startswith("bytes"):
                 md["format"] = "base16" if kind == "bytes16" else "base64"
@@ -103,6 +106,11 @@ class Universe:
                 flds.append((fname, tp, field(metadata=md)))
             elif shape == "opt":
                 flds.append((fname, Optional[tp], field(default=None, metadata=md)))
+            elif shape == "fixed":
+                flds.append((fname, tp, field(init=False, default=self.value(rng, kind), metadata=md)))
+            elif shape == "fixedtok":
+                items = [self.value(rng, kind) for _ in range(rng.choice([0, 1, 2, 3]))]
+                flds.append((fname, List[tp], field(init=False, default_factory=lambda items=items: list(items), metadata=md)))
             else:
                 flds.append((fname, List[tp], field(default_factory=list, metadata=md)))
             spec.append((fname, kind, shape))
@@ -157,6 +165,8 @@ class Universe:
     def instance(self, rng, name, depth=0):
         kw = {}
         for fname, kind, shape in self.specs[name]:
+            if shape in ("fixed", "fixedtok"):
+                continue                  # outside __init__: the instance holds the fixed value
             if shape == "req":
                 kw[fname] = self.value(rng, kind, depth)
             elif shape == "opt":
@@ -194,10 +204,33 @@ def same(a, b):
 
 
 # ------------------------------------------------------------------ the regions of listed findings
+def _has_nan(v):
+    if isinstance(v, (list, tuple)):
+        return any(_has_nan(x) for x in v)
+    if isinstance(v, float):
+        return math.isnan(v)
+    if isinstance(v, Decimal):
+        return v.is_nan()
+    return False
+
+
 def regions(u: Universe, obj):
-    """ids of listed findings the instance falls under (none at present: the str-as-number decoding of
-    union fields is repaired, see known_findings.json `fixed`)"""
-    return set()
+    """ids of listed findings the instance falls under (from the field kinds and values only)"""
+    found = set()
+
+    def walk(o):
+        for fname, kind, shape in u.specs[type(o).__name__]:
+            v = getattr(o, fname)
+            if shape in ("fixed", "fixedtok") and _has_nan(v) and not (shape == "fixed" and isinstance(v, float)):
+                # validate_fixed_value only knows that a float NaN equals itself
+                found.add("C04-fixed-nan")
+            for it in (v if isinstance(v, list) else [v]):
+                if is_dataclass(it):
+                    walk(it)
+
+    for top in (obj if isinstance(obj, list) else [obj]):
+        walk(top)
+    return found
 
 
 # ------------------------------------------------------------------ the case behind a seed
